@@ -203,6 +203,10 @@ fn gen_case(seed: u64, index: u64, tier: Tier) -> Case {
 		case.hold = Hold::None;
 		case.track_paused = false;
 		case.seek = None;
+		// (the failing call has to come while callbacks and polls are still going on: no slow
+		// decoder here, and schedules that let all three tasks take turns)
+		case.slow = 0;
+		case.sched = Some(*rng.pick(&[0.1, 0.3, 0.7]));
 	}
 	// a sixteenth of all cases race the END of a short stream: a decoder that is slow compared
 	// with the audio task delivers its last frames (and raises "reached the end") while a chunk
@@ -409,7 +413,8 @@ pub fn run_case(case: &Case) -> CaseResult {
 						}
 						// a looping sound that nobody stops can only be Stopped because of a decode error:
 						// from that moment on the error must be there to be popped
-						if matches!(case2.ending, Ending::Natural) && case2.looped {
+						for _poll in 0..if matches!(case2.ending, Ending::Natural) && case2.looped { 4 } else { 0 } {
+							kira::verif::yield_point("gameplay.poll");
 							if let Some(world) = guard.as_mut() {
 								if let Some(SoundH::Streaming(h, _)) = world.sounds[sound_idx].handle.as_mut() {
 									if h.state() == PlaybackState::Stopped && probe2.errors.load(Ordering::SeqCst) > 0 && early_pop2.lock().unwrap().is_none() {
